@@ -634,6 +634,9 @@ func genLed(g *Gen) {
 				l.recv()
 			case k < 17:
 				l.newAddr(l.wallets[g.Rng.Intn(len(l.wallets))])
+			case k == 17 && g.Prop == "C09" && s%4 == 3:
+				// lagging wallet + delivery that conflicts with its stale chain, compared at the caught-up point
+				l.staleConflict()
 			case k >= 17 && k <= 18 && g.Prop != "C09" && lazy:
 				// restart + catch-up by height, skipped notifications, duplicate notifications
 				// (C09 keeps its volatile seen-set: no restarts there)
